@@ -1,6 +1,7 @@
 """C04 - JWE encrypt-then-decrypt round trip (claimed for four structural clauses only).
 
 R04.1 forbidden combinations are refused at encryption time      R04.2 zip mirror (compress before encrypt / decompress after decrypt, same condition)
+R04.6 DEF framing and completion gate (the C17 rules R17.2-R17.5 / R17.3 run as a clause of C04)
 R04.5 AAD predicate mirror (encrypt / JSON writer / decrypt)
 R04.3 writer / reader member agreement of the three serializations R04.4 header merge order and add_header placement
 """
@@ -320,6 +321,11 @@ def r04_5(ctx) -> None:
 
 
 def run(ctx) -> None:
+    # "with DEF, for plaintexts up to the decompression limit": the completion gate of the bounded inflater (C17) decides whether a
+    # plaintext of exactly the limit still round-trips
+    from .c17 import r17_2_5, r17_3
+    ctx.guard_as("R04.6", r17_2_5)
+    ctx.guard_as("R04.6", r17_3)
     ctx.guard(r04_5)
     ctx.guard(r04_1)
     ctx.guard(r04_2)
